@@ -1117,6 +1117,9 @@ func (s *Session) inputData(seg *segment) error {
 		return fmt.Errorf("unsupported transport protocol %v", s.transportProtocol)
 	}
 
+	if seg.metadata.Protocol() == openSessionRequest {
+		verifPoint("open-request-payload-readable", s)
+	}
 	return nil
 }
 
